@@ -539,6 +539,17 @@ func c36RunLayout(env *c36Env, caseNo int) error {
 			for _, sg := range l.Segs {
 				segByKey[sg.Key] = sg
 			}
+			if l.TimeIndex && rng.Intn(2) == 0 {
+				// the periodic backfill runs again: every completed segment gets a side-car
+				if err := tib.Build(ctx); err != nil {
+					r.Inconclusive(fmt.Sprintf("case %d: second time index build failed: %v", caseNo, err))
+					return nil
+				}
+				for _, sg := range l.Segs {
+					sg.Sidecar = sg.Completed
+				}
+				r.Count("time_index_rebuilt_while_serving", 1)
+			}
 			r.Count("segments_added_while_serving", int64(added))
 			r.Count("inflight_segments_completed_while_serving", int64(completed))
 		}
@@ -725,7 +736,7 @@ func TestVerifC36(t *testing.T) {
 	defer s3.Close()
 	scratch := t.TempDir()
 	env := &c36Env{s3: s3, r: r, scratch: scratch, queries: r.N(14, 30)}
-	layouts := r.N(34, 200)
+	layouts := r.N(28, 150)
 	r.Floor("queries_that_skipped_with_time_filter", int64(r.N(10, 100)))
 	r.Floor("queries_that_skipped_with_offset_filter", int64(r.N(10, 100)))
 	r.Floor("rows_checked", int64(r.N(500, 5000)))
